@@ -240,3 +240,11 @@ package dispatcher
 //@   calls queue.LeaseBatchStore.NackBatch requires [C06:every_lease_in_a_nack_batch_was_given_exactly_this_delay] len(callee_leaseIDs) == len(grouped) && forall k int :: 0 <= k && k < len(grouped) ==> grouped[k].delay == callee_delay && grouped[k].kind == leaseActionNack && callee_leaseIDs[k] == grouped[k].leaseID
 //@   calls queue.LeaseBatchStore.MarkDeadBatch requires [C06:every_lease_in_a_dead_letter_batch_was_given_exactly_this_reason] len(callee_leaseIDs) == len(grouped) && forall k int :: 0 <= k && k < len(grouped) ==> grouped[k].reason == callee_reason && grouped[k].kind == leaseActionMarkDead && callee_leaseIDs[k] == grouped[k].leaseID
 //@   calls queue.LeaseBatchStore.AckBatch requires [C06:only_acks_are_acked] len(callee_leaseIDs) == len(acks) && forall k int :: 0 <= k && k < len(acks) ==> acks[k].kind == leaseActionAck && callee_leaseIDs[k] == acks[k].leaseID
+
+// ---- C05: leases the dispatcher holds but will not deliver (stop, drain) are handed back, each exactly once ----
+//@ func (*PushDispatcher).requeueLeases
+//@   requires d != nil && d.Store != nil
+//@   modifies storeMutations, lastStoreErr, lastStoreLease, lastStoreOp, lastStoreAmount
+//@   loop 1 invariant [one_nack_per_untouched_lease] rangeindex < len(items) && storeMutations == old(storeMutations) + rangeindex + 1
+//@   calls queue.Store.Nack requires [C05:every_untouched_lease_is_nacked_with_the_given_delay] callee_leaseID == items[rangeindex].LeaseID && callee_delay == delay
+//@   ensures [C05:every_untouched_lease_is_handed_back_exactly_once] storeMutations == old(storeMutations) + len(items)
